@@ -273,7 +273,8 @@ def translate() -> tuple[str, dict]:
 
 
 # Digests of the hand-modelled functions at the time the model (Text/Tokenizer.v) was written.
-MODEL_DIGESTS: dict[str, str] = {}
+MODEL_DIGESTS: dict[str, str] = {'_next_char': '0bbf18d86204', '_get_token': 'f5112b26368c',
+                                  '_handle_comment': '124fdad5849e', '_handle_string': '6cc8c104a316'}
 
 
 def _scan_pyx() -> dict:
